@@ -9,7 +9,7 @@ import numpy as np
 LEVEL = 'exploration'
 LEVEL_TEXT = ('Bounded-exhaustive runtime check: every Linen filter form up to nesting depth 2 (quick) / 3 (thorough), all '
               'ordered pairs x 3 operators x 4 names, all filter lists up to length 3, and NNX filter expressions up to the '
-              'same depth through all eight split/filter entry points, each compared with an independent membership oracle. '
+              'same depth (plus list/tuple members nested inside Any/All/Not) through all eight split/filter entry points, each compared with an independent membership oracle. '
               'Filters are finite/co-finite sets, so small scope is decisive for the algebra; exploration is the honest level.')
 LEVEL_NOTE = 'Trusts the 10-line reference evaluators in vf/props/c14.py and the JAX compat aliases (vf/compat.py).'
 TECHNIQUE = 'runtime monitoring: semantic membership oracle over bounded-exhaustive filter forms on the real filter functions'
@@ -245,6 +245,23 @@ def nnx_exprs(types, depth, rng=None, cap=None):
       nxt = rng.sample(nxt, cap)
     allx += nxt
     lvl = nxt
+  # sequences nested inside combinators: a list/tuple member of All/Any/Not is itself a disjunction (seeded change C14-b)
+  small = [('type', 'Param'), ('type', 'BatchStat'), ('tag', 't1'), ('tag', 't2'), ('pc', 'k1'), ('type', 'Other')]
+  for x in atoms[:10]:
+    for a, b in itertools.combinations(small, 2):
+      for kind in ('seq', 'lst'):
+        allx.append(('all', (x, (kind, (a, b)))))
+        allx.append(('all', ((kind, (a, b)), x)))
+        allx.append(('any', (x, (kind, (a, b)))))
+    allx.append(('all', (x, ('seq', ()))))
+    allx.append(('all', (x, ('lst', ()))))
+    allx.append(('any', (x, ('seq', ()))))
+    allx.append(('all', (x, ('seq', (x,)))))
+    allx.append(('not', ('seq', (x, ('tag', 't1')))))
+    allx.append(('seq', (('seq', (x, ('tag', 't2'))), ('type', 'Other'))))
+    allx.append(('all', (('seq', (x, ('tag', 't1'))), ('seq', (('type', 'Param'), ('pc', 'k2'))))))
+    allx.append(('all', (x, ('not', ('seq', (('tag', 't1'), ('pc', 'k2')))))))
+    allx.append(('all', (x, ('seq', (('all', (('type', 'Param'), ('tag', 't1'))), ('type', 'BatchStat'))))))
   return allx
 
 
